@@ -1,0 +1,298 @@
+// Verification hooks for the transport manager (cfg(feature = "verif") only, adds code only):
+// a scripted `Transport` whose events and call results are dictated from outside, and read
+// accessors / single-step drivers for `TransportManager`.
+
+use super::*;
+use crate::transport::manager::peer_state::SecondaryOrDialing;
+
+use std::{
+    collections::VecDeque,
+    future::Future,
+    sync::Arc as StdArc,
+    task::{Context as TaskContext, Poll as TaskPoll},
+};
+
+/// A call made by the manager on the scripted transport.
+#[derive(Debug, Clone, PartialEq, Eq)]
+pub enum VerifCall {
+    Dial(usize),
+    Open(usize, usize),
+    Negotiate(usize),
+    Cancel(usize),
+    Accept(usize),
+    Reject(usize),
+    AcceptPending(usize),
+    RejectPending(usize),
+}
+
+/// Event returned by `TransportManager::next()`, flattened.
+#[derive(Debug, Clone, PartialEq, Eq)]
+pub enum VerifManagerEvent {
+    ConnectionEstablished(PeerId, usize, bool),
+    ConnectionClosed(PeerId, usize),
+    DialFailure(usize, Multiaddr),
+    OpenFailure(usize, usize),
+    Other,
+}
+
+#[derive(Default)]
+struct ScriptInner {
+    events: VecDeque<TransportEvent>,
+    calls: Vec<VerifCall>,
+    fail_open: bool,
+    fail_dial: bool,
+    fail_negotiate: bool,
+    fail_accept: bool,
+    accepts: Vec<(usize, tokio::sync::oneshot::Sender<bool>)>,
+}
+
+/// Shared handle to the scripted transport.
+#[derive(Clone, Default)]
+pub struct VerifScript {
+    inner: StdArc<parking_lot::Mutex<ScriptInner>>,
+}
+
+impl VerifScript {
+    pub fn take_calls(&self) -> Vec<VerifCall> {
+        std::mem::take(&mut self.inner.lock().calls)
+    }
+
+    pub fn set_failures(&self, open: bool, dial: bool, negotiate: bool, accept: bool) {
+        let mut inner = self.inner.lock();
+        inner.fail_open = open;
+        inner.fail_dial = dial;
+        inner.fail_negotiate = negotiate;
+        inner.fail_accept = accept;
+    }
+
+    pub fn inject_dial_failure(&self, connection_id: usize, address: Multiaddr) {
+        self.inner.lock().events.push_back(TransportEvent::DialFailure {
+            connection_id: ConnectionId::from(connection_id),
+            address,
+            error: DialError::Timeout,
+        });
+    }
+
+    pub fn inject_connection_opened(&self, connection_id: usize, address: Multiaddr) {
+        self.inner.lock().events.push_back(TransportEvent::ConnectionOpened {
+            connection_id: ConnectionId::from(connection_id),
+            address,
+            errors: Vec::new(),
+        });
+    }
+
+    pub fn inject_open_failure(&self, connection_id: usize, addresses: Vec<Multiaddr>) {
+        self.inner.lock().events.push_back(TransportEvent::OpenFailure {
+            connection_id: ConnectionId::from(connection_id),
+            errors: addresses.into_iter().map(|a| (a, DialError::Timeout)).collect(),
+        });
+    }
+
+    pub fn inject_connection_established(
+        &self,
+        peer: PeerId,
+        connection_id: usize,
+        address: Multiaddr,
+        listener: bool,
+    ) {
+        let connection_id = ConnectionId::from(connection_id);
+        let endpoint = if listener {
+            Endpoint::listener(address, connection_id)
+        } else {
+            Endpoint::dialer(address, connection_id)
+        };
+        self.inner
+            .lock()
+            .events
+            .push_back(TransportEvent::ConnectionEstablished { peer, endpoint });
+    }
+
+    pub fn inject_pending_inbound(&self, connection_id: usize) {
+        self.inner.lock().events.push_back(TransportEvent::PendingInboundConnection {
+            connection_id: ConnectionId::from(connection_id),
+        });
+    }
+
+    /// Complete the `accept` future of `connection_id` (the notification of the protocols).
+    pub fn resolve_accept(&self, connection_id: usize, ok: bool) -> bool {
+        let mut inner = self.inner.lock();
+        match inner.accepts.iter().position(|(c, _)| *c == connection_id) {
+            Some(i) => {
+                let (_, tx) = inner.accepts.remove(i);
+                tx.send(ok).is_ok()
+            }
+            None => false,
+        }
+    }
+}
+
+struct ScriptedTransport {
+    script: VerifScript,
+}
+
+impl Stream for ScriptedTransport {
+    type Item = TransportEvent;
+
+    fn poll_next(self: Pin<&mut Self>, _: &mut TaskContext<'_>) -> TaskPoll<Option<Self::Item>> {
+        match self.script.inner.lock().events.pop_front() {
+            Some(event) => TaskPoll::Ready(Some(event)),
+            None => TaskPoll::Pending,
+        }
+    }
+}
+
+impl Transport for ScriptedTransport {
+    fn dial(&mut self, connection_id: ConnectionId, _: Multiaddr) -> crate::Result<()> {
+        let mut inner = self.script.inner.lock();
+        inner.calls.push(VerifCall::Dial(connection_id.verif_as_usize()));
+        if inner.fail_dial {
+            return Err(Error::ConnectionDoesntExist(connection_id));
+        }
+        Ok(())
+    }
+
+    fn accept(
+        &mut self,
+        connection_id: ConnectionId,
+    ) -> crate::Result<BoxFuture<'static, crate::Result<()>>> {
+        let mut inner = self.script.inner.lock();
+        inner.calls.push(VerifCall::Accept(connection_id.verif_as_usize()));
+        if inner.fail_accept {
+            return Err(Error::ConnectionDoesntExist(connection_id));
+        }
+        let (tx, rx) = tokio::sync::oneshot::channel();
+        inner.accepts.push((connection_id.verif_as_usize(), tx));
+        Ok(Box::pin(async move {
+            match rx.await {
+                Ok(true) => Ok(()),
+                _ => Err(Error::ConnectionDoesntExist(connection_id)),
+            }
+        }))
+    }
+
+    fn accept_pending(&mut self, connection_id: ConnectionId) -> crate::Result<()> {
+        self.script.inner.lock().calls.push(VerifCall::AcceptPending(connection_id.verif_as_usize()));
+        Ok(())
+    }
+
+    fn reject_pending(&mut self, connection_id: ConnectionId) -> crate::Result<()> {
+        self.script.inner.lock().calls.push(VerifCall::RejectPending(connection_id.verif_as_usize()));
+        Ok(())
+    }
+
+    fn reject(&mut self, connection_id: ConnectionId) -> crate::Result<()> {
+        self.script.inner.lock().calls.push(VerifCall::Reject(connection_id.verif_as_usize()));
+        Ok(())
+    }
+
+    fn open(&mut self, connection_id: ConnectionId, addresses: Vec<Multiaddr>) -> crate::Result<()> {
+        let mut inner = self.script.inner.lock();
+        inner.calls.push(VerifCall::Open(connection_id.verif_as_usize(), addresses.len()));
+        if inner.fail_open {
+            return Err(Error::ConnectionDoesntExist(connection_id));
+        }
+        Ok(())
+    }
+
+    fn negotiate(&mut self, connection_id: ConnectionId) -> crate::Result<()> {
+        let mut inner = self.script.inner.lock();
+        inner.calls.push(VerifCall::Negotiate(connection_id.verif_as_usize()));
+        if inner.fail_negotiate {
+            return Err(Error::ConnectionDoesntExist(connection_id));
+        }
+        Ok(())
+    }
+
+    fn cancel(&mut self, connection_id: ConnectionId) {
+        self.script.inner.lock().calls.push(VerifCall::Cancel(connection_id.verif_as_usize()));
+    }
+}
+
+impl TransportManager {
+    /// Install the scripted transport as the TCP transport.
+    pub fn verif_register_scripted(&mut self) -> VerifScript {
+        let script = VerifScript::default();
+        self.register_transport(
+            SupportedTransport::Tcp,
+            Box::new(ScriptedTransport { script: script.clone() }),
+        );
+        script
+    }
+
+    /// Poll `next()` until it is pending; returns the events it produced.
+    pub fn verif_drain(&mut self) -> Vec<VerifManagerEvent> {
+        let waker = futures::task::noop_waker();
+        let mut cx = TaskContext::from_waker(&waker);
+        let mut out = Vec::new();
+        loop {
+            let polled = {
+                let mut future = Box::pin(self.next());
+                future.as_mut().poll(&mut cx)
+            };
+            match polled {
+                TaskPoll::Pending | TaskPoll::Ready(None) => return out,
+                TaskPoll::Ready(Some(event)) => out.push(match event {
+                    TransportEvent::ConnectionEstablished { peer, endpoint } =>
+                        VerifManagerEvent::ConnectionEstablished(
+                            peer,
+                            endpoint.connection_id().verif_as_usize(),
+                            endpoint.is_listener(),
+                        ),
+                    TransportEvent::ConnectionClosed { peer, connection_id } =>
+                        VerifManagerEvent::ConnectionClosed(peer, connection_id.verif_as_usize()),
+                    TransportEvent::DialFailure { connection_id, address, .. } =>
+                        VerifManagerEvent::DialFailure(connection_id.verif_as_usize(), address),
+                    TransportEvent::OpenFailure { connection_id, errors } =>
+                        VerifManagerEvent::OpenFailure(connection_id.verif_as_usize(), errors.len()),
+                    _ => VerifManagerEvent::Other,
+                }),
+            }
+        }
+    }
+
+    /// Report a closed connection the way a connection task does.
+    pub fn verif_report_closed(&mut self, peer: PeerId, connection_id: usize) {
+        let _ = self.event_tx.try_send(TransportManagerEvent::ConnectionClosed {
+            peer,
+            connection: ConnectionId::from(connection_id),
+        });
+    }
+
+    /// `[tag, a, b]`: 0 Disconnected{None}; 1 Disconnected{Some a}; 2 Dialing a; 3 Opening a;
+    /// 4 Connected{a, None}; 5 Connected{a, Secondary b}; 6 Connected{a, Dialing b}; 9 unknown peer.
+    pub fn verif_peer_state(&self, peer: &PeerId) -> [usize; 3] {
+        let peers = self.peers.read();
+        let Some(context) = peers.get(peer) else {
+            return [9, 0, 0];
+        };
+        match &context.state {
+            PeerState::Disconnected { dial_record: None } => [0, 0, 0],
+            PeerState::Disconnected { dial_record: Some(record) } =>
+                [1, record.connection_id.verif_as_usize(), 0],
+            PeerState::Dialing { dial_record } => [2, dial_record.connection_id.verif_as_usize(), 0],
+            PeerState::Opening { connection_id, .. } => [3, connection_id.verif_as_usize(), 0],
+            PeerState::Connected { record, secondary: None } =>
+                [4, record.connection_id.verif_as_usize(), 0],
+            PeerState::Connected { record, secondary: Some(SecondaryOrDialing::Secondary(s)) } =>
+                [5, record.connection_id.verif_as_usize(), s.connection_id.verif_as_usize()],
+            PeerState::Connected { record, secondary: Some(SecondaryOrDialing::Dialing(s)) } =>
+                [6, record.connection_id.verif_as_usize(), s.connection_id.verif_as_usize()],
+        }
+    }
+
+    pub fn verif_has_addresses(&self, peer: &PeerId) -> bool {
+        self.peers.read().get(peer).is_some_and(|context| !context.addresses.is_empty())
+    }
+
+    pub fn verif_pending_connections(&self) -> Vec<(usize, PeerId)> {
+        self.pending_connections.iter().map(|(c, p)| (c.verif_as_usize(), *p)).collect()
+    }
+
+    pub fn verif_limit_sets(&self) -> (Vec<usize>, Vec<usize>) {
+        self.connection_limits.verif_sets()
+    }
+
+    pub fn verif_local_peer_id(&self) -> PeerId {
+        self.local_peer_id
+    }
+}
